@@ -19,15 +19,6 @@ Lemma refuted_clear :
               wout (wrun h) (QueryG T) = OInst [] /\ spec_query wch wfuel (live (wrun h)) T = [0].
 Proof. exists [New 0 0 0; Clear], 0. vm_compute. auto. Qed.
 
-(* C13-e: an instance that dies while an evaluation is being consumed row by row, before its turn, is handed out as None *)
-Lemma refuted_live_death :
-  exists h n, adm_run wch wfuel init h = true /\
-              wout (wrun h) (NextV n (Some None)) = OInst [None] /\
-              snd (spec_step wch wfuel (wspec h) (NextV n (Some None))) = OErr.
-Proof.
-  exists [New 0 0 0; New 0 1 1; DeclV 0; StartV 0; NextV 0 (Some (Some 0)); Drop 1], 0. vm_compute. auto.
-Qed.
-
 (* C20-a2: every query object leaves one entry in the process-wide expression tables, whatever is dropped *)
 Lemma refuted_expr_growth :
   exists h, adm_run wch wfuel init h = true /\ live (wrun h) = [] /\ user (wrun h) = [] /\ length (vars (wrun h)) = 3.
@@ -48,6 +39,17 @@ Example evaluated_query_holds_nothing :
   adm_run wch wfuel init h = true /\ live (wrun h) = [] /\ wout (wrun h) (QueryG 0) = OInst [] /\
   sizes (g (fst (step wch wfuel (wrun h) Sweep))) = [0; 0; 0; 0; 0].
 Proof. vm_compute. auto. Qed.
+
+(* C13-e (125842b): an instance that dies while an evaluation is being consumed row by row, before its turn, is skipped
+   (it used to be handed out as None) *)
+Example dead_before_its_turn_is_skipped :
+  let h := [New 0 0 0; New 0 1 1; New 1 2 2; DeclV 0; StartV 0; NextV 0 (Some (Some 0)); Drop 1] in
+  adm_run wch wfuel init h = true /\
+  wout (wrun h) (NextV 0 (Some (Some 2))) = OInst [Some 2] /\
+  snd (spec_step wch wfuel (wspec h) (NextV 0 (Some (Some 2)))) = OInst [Some 2] /\
+  wout (wrun (h ++ [NextV 0 (Some (Some 2))])) (NextV 0 None) = OInst [] /\
+  snd (spec_step wch wfuel (wspec (h ++ [NextV 0 (Some (Some 2))])) (NextV 0 None)) = OInst [].
+Proof. vm_compute. repeat split; reflexivity. Qed.
 
 (* C13-a (a83ee6a): an instance of the diamond class 3 is returned once for a query on 0 *)
 Example diamond_once : wout (wrun [New 3 0 0; New 1 1 1]) (QueryE 0) = OInst [Some 1; Some 0].
